@@ -489,7 +489,7 @@ pub fn raw_oracle(sc: &Scenario, out: &Outcome) -> Vec<Violation> {
 // ---------------- Part B: direct-connection reference ----------------
 
 pub const REF_PROGRAMS: &[&str] = &[
-    "simple", "ext", "named", "pipelined", "bare-sync-then-batch", "sync-between", "describe", "close-reparse", "flush-wait", "big", "txn-ext", "copy", "ext-copy", "ext-copy-fail", "ext-copy-in-txn", "error-in-batch",
+    "simple", "ext", "named", "pipelined", "bare-sync-then-batch", "sync-between", "describe", "close-reparse", "flush-wait", "big", "txn-ext", "copy", "ext-copy", "ext-copy-fail", "ext-copy-in-txn", "copy-sync-mid", "error-in-batch",
 ];
 
 pub fn norm(m: &Msg) -> Msg {
@@ -625,6 +625,19 @@ pub fn ref_program(prog: &str) -> Script {
                 s = s.q(&format!("COMMIT /*{}*/", t(0, 8)));
             }
             s = s.q(&format!("SELECT 1 /*{}*/", t(1, 0)));
+        }
+        // a Sync (which the server ignores and nobody answers) in the middle of COPY IN, with CopyData still
+        // below the pooler's forwarding threshold before and after it
+        "copy-sync-mid" => {
+            s = s
+                .send(wire::query(&format!("COPY t FROM STDIN /*{}*/", t(0, 0))), "Q COPY")
+                .wait(Cond::CodeOrClosed(b'G', 1))
+                .send(wire::copy_data(b"1\n"), "d")
+                .send(wire::copy_data(b"2\n"), "d")
+                .send(wire::sync(), "S (mid-COPY)")
+                .send(wire::copy_data(b"3\n"), "d")
+                .send_z(wire::copy_done(), "c")
+                .q(&format!("SELECT 1 /*{}*/", t(1, 0)));
         }
         "error-in-batch" => {
             let mut b = pbe("", "SELECT ERR!", &t(0, 0));
